@@ -42,9 +42,38 @@ structure Obs where
   /-- number of set bits beyond the pool. -/
   extraBits : Nat
   disk : Option (List LeaseV)
+  /-- What `dhcpd.Interface` answers: `(ip, HostByIP ip, MACByIP ip)` and `(host, IPByHost host)`
+  (`[]` = no name / `nil`, `0` = the zero address). -/
+  byIP : List (Nat × Bytes × Bytes) := []
+  byHost : List (Bytes × Nat) := []
 deriving Repr
 
 def Obs.empty : Obs := { now := 1000, leases := [], hosts := [], ips := [], bits := [], extraBits := 0, disk := none }
+
+/-- `HostByIP`, `MACByIP` (`FindMACbyIP`: a reservation, or a lease that has not
+run out), `IPByHost` on a model state. -/
+def State.hostByIP (s : State) (ip : Nat) : Bytes :=
+  match (s.ips ip).bind s.deref with
+  | some l => l.host
+  | none => []
+
+def State.macByIP (s : State) (ip : Nat) : Bytes :=
+  match (s.ips ip).bind s.deref with
+  | some l => if l.static || decide (s.now < l.exp) then l.mac else []
+  | none => []
+
+def State.ipByHost (s : State) (h : Bytes) : Nat :=
+  match (s.hosts h).bind s.deref with
+  | some l => l.ip
+  | none => 0
+
+/-- The answers by address agree with the table: the name of the lease on that
+address, and its hardware address while it is a reservation or unexpired. -/
+def answersAgree (o : Obs) : Bool :=
+  o.byIP.all (fun (ip, h, m) =>
+    match o.leases.find? (fun l => l.ip == ip) with
+    | some l => h == l.host && m == (if l.static || decide (o.now < l.exp) then l.mac else [])
+    | none => h == [] && m == [])
 
 /-! ### the answers given to DNS -/
 
@@ -202,7 +231,7 @@ def restartNamedKept (o o' : Obs) : Bool :=
 def Op.name : Op → String
   | .discover .. => "discover" | .request .. => "request" | .decline .. => "decline" | .release .. => "release"
   | .addStatic .. => "addStatic" | .updStatic .. => "updStatic" | .rmStatic .. => "rmStatic"
-  | .sleep .. => "sleep" | .restart => "restart"
+  | .sleep .. => "sleep" | .restart => "restart" | .reorder .. => "reorder"
 
 /-- Where a clause broke: the operation and, for the static-lease API, its error class. -/
 def atOp (op : Op) (r : Reply) : String :=
@@ -260,7 +289,8 @@ def specWhy (c : Conf) (o : Obs) (op : Op) (r : Reply) (o' : Obs) : Option Strin
   match specCoreWhy c o op r o' with
   | some w => some w
   | none =>
-    if !reservationsKept o op o' then some ("reservation-changed-by-dhcp-message" ++ atOp op r)
+    if !answersAgree o' then some "dns-answer-disagrees-with-table"
+    else if !reservationsKept o op o' then some ("reservation-changed-by-dhcp-message" ++ atOp op r)
     else specStoreWhy o op r o'
 
 def specCore (c : Conf) (o : Obs) (op : Op) (r : Reply) (o' : Obs) : Bool := (specCoreWhy c o op r o').isNone
@@ -291,6 +321,10 @@ def obsOf (c : Conf) (s : State) : Obs :=
     ips := entriesOf s (dedup (s.ipKeys ++ s.leases.map (·.ip))) s.ips
     bits := (List.range (c.stop + 1 - c.start)).map s.bits
     extraBits := 0
-    disk := s.disk }
+    disk := s.disk
+    byIP := (dedup (poolAddrs c ++ s.leases.map (·.ip) ++ s.ipKeys.filter (fun k => (s.ips k).isSome))).map
+      (fun ip => (ip, s.hostByIP ip, s.macByIP ip))
+    byHost := (dedup ((s.leases.map (·.host)).filter (· != []) ++ s.hostKeys.filter (fun k => (s.hosts k).isSome))).map
+      (fun h => (h, s.ipByHost h)) }
 
 end AGH.C10
